@@ -205,6 +205,69 @@ def with_shifts(games, n: int):
         yield ("dyadic", scaled(g, 0.25))
 
 
+BIG = float(2 ** 20)
+TINY = 2.0 ** -30
+
+
+def with_scales(games, n: int):
+    """Value-scale variants (all exactly representable): a huge additive part with a small surplus on top, and tiny units."""
+    add = tuple(BIG * x for x in (1, -1, 2, 0, 3, -2, 1, 0, 2, -1)[:n])
+    for g in games:
+        yield ("bigshift", shifted(g, add))
+        yield ("tiny", scaled(g, TINY))
+
+
+def all_variants(g, n: int):
+    return list(with_shifts([g], n)) + list(with_scales([g], n))
+
+
+def few_knowledge(n: int) -> list:
+    """A dozen knowledge sets for large n: minimal, full, minimal + one coalition (six spread ids), two size layers."""
+    base = kmask(minimal_ids(n))
+    ex = explorable_ids(n)
+    full = base | kmask(ex)
+    out = [base, full]
+    for j in range(6):
+        out.append(base | 1 << ex[(j * len(ex)) // 6 + j])
+    out.append(base | kmask(c for c in ex if popcount(c) <= 2))
+    out.append(base | kmask(c for c in ex if popcount(c) >= n - 1))
+    seen, res = set(), []
+    for k in out:
+        if k not in seen:
+            seen.add(k)
+            res.append(k)
+    return res
+
+
+def budget_game(n: int, k: int) -> tuple:
+    """The K-budget game -min(k, |S|): superadditive, monotone non-increasing, negative."""
+    return tuple(float(-min(k, popcount(s))) for s in range(1 << n))
+
+
+@lru_cache(maxsize=None)
+def a4_any_sample() -> tuple:
+    """A4-ANY(s): 324 four-player games that are generally NOT superadditive: singletons 1, pairs all 2 / 3-on-even-ids, triples free
+    in {2,3,4}, grand coalition in {4,5} (many exact ties between sums of parts and values)."""
+    out = []
+    triples = [s for s in range(16) if popcount(s) == 3]
+    for pat in (0, 1):
+        for tv in itertools.product((2, 3, 4), repeat=4):
+            for gv in (4, 5):
+                v = [0] * 16
+                for s in range(1, 16):
+                    c = popcount(s)
+                    if c == 1:
+                        v[s] = 1
+                    elif c == 2:
+                        v[s] = 2 if (pat == 0 or s % 2) else 3
+                    elif c == 3:
+                        v[s] = tv[triples.index(s)]
+                    else:
+                        v[s] = gv
+                out.append(tuple(v))
+    return tuple(out)
+
+
 def knowledge_sets(n: int):
     """All knowledge sets (as bitmask over coalition ids) containing the minimal information."""
     ex = explorable_ids(n)
